@@ -11,7 +11,17 @@
  *   T <period> <inside>
  *   L | <ok|cycle|other>                      (cfg mode: compile+commit+activate what was buffered)
  *   Q <closedbits> | <a b c>:<deps>:<groups> ... reg=<k>
+ *   A <id> <child> <parent> <group|-> <filter> <ignoreSoft> <period> <disChecks> <disNotif> | <ok|cycle|other> <c0> <c1> ... reg=<k>
+ *                                              cfg mode, after the first successful L: ONE dependency created at runtime through
+ *                                              ConfigObjectUtility::CreateObjectConfig + CreateObject (the path of PUT /v1/objects);
+ *                                              ci = GetDependencies().size() of node i afterwards; the case continues after a refusal
+ *   R <depid> | <ok|other>                     runtime deletion of an A-created dependency through ConfigObjectUtility::DeleteObject
+ *   G | <g0>;<g1>;...;reg=<k>                  composition of GetDependencyGroups() per node: 0 or groups joined by '+', one group =
+ *                                              <name|->/<parent.period.filter.ignoreSoft,...>/<own dep ids>/<GetDependenciesCount()>
  *   E <reason>                                 malformed op (bad reference, duplicate id ...): rest of the case is skipped
+ *
+ * A rejected L that is not the first L of its case does not end the case (nothing of the batch is live afterwards), unless the
+ * batch contained N lines ("E failed batch contained nodes").
  *
  * Modes:  gen --seed S --tier quick|thorough      obj-mode generation, executed in-process
  *         gencfg --seed S --tier quick|thorough   cfg-mode cases, ops only (nothing is executed)
@@ -27,8 +37,13 @@
 #include "base/workqueue.hpp"
 #include "base/scriptframe.hpp"
 #include "base/exception.hpp"
+#include "base/configuration.hpp"
+#include "remote/configobjectutility.hpp"
+#include "remote/configpackageutility.hpp"
 #include <algorithm>
+#include <array>
 #include <map>
+#include <mutex>
 #include <set>
 #include <fcntl.h>
 
@@ -38,6 +53,8 @@ using namespace vh;
 /* the tag must live in namespace vh: the friend definition of Rob<> is a member of that namespace */
 namespace vh {
 VH_ROB_MEMBER(RobServiceHost, Service, Host::Ptr, m_Host)
+VH_ROB_MEMBER(RobGroupMembers, DependencyGroup, DependencyGroup::MembersMap, m_Members)
+VH_ROB_MEMBER(RobGroupMutex, DependencyGroup, std::mutex, m_Mutex)
 }
 
 static const double kNow = 1000000.0;
@@ -113,11 +130,59 @@ static bool LoadConfig(const std::string& text, bool runtimeCreated, std::string
 	return true;
 }
 
+/* ------------------------------------------------------------------------------------------------
+ * "_api" config package storage for ConfigObjectUtility::CreateObject/DeleteObject: a fresh data directory, set up lazily
+ * by the first A line. CreateObject creates the package, a stage and activates it by itself (CreateStorage()); without an
+ * ApiListener instance ConfigPackageUtility keeps the active stage in the "active-stage" file only. */
+
+static std::string l_ApiTmpDir;
+
+static void RemoveApiStorage()
+{
+	if (l_ApiTmpDir.empty())
+		return;
+	try {
+		Utility::RemoveDirRecursive(l_ApiTmpDir);
+	} catch (const std::exception&) {
+	}
+	l_ApiTmpDir.clear();
+}
+
 static void Die(const char *msg, const std::string& detail = "")
 {
 	printf("FATAL %s %s\n", msg, detail.c_str());
 	fflush(stdout);
+	RemoveApiStorage();
 	_exit(3);
+}
+
+static void EnsureApiStorage()
+{
+	if (!l_ApiTmpDir.empty())
+		return;
+	std::string base;
+	const char *env = getenv("TMPDIR");
+	if (env && *env)
+		base = env;
+	else
+		base = "/verif/_work/scratch/c07h/tmp";
+	try {
+		Utility::MkDirP(base, 0700);
+	} catch (const std::exception&) {
+		base = "/tmp";
+	}
+	std::string tmpl = base + "/c07api.XXXXXX";
+	std::vector<char> b(tmpl.begin(), tmpl.end());
+	b.push_back(0);
+	if (!mkdtemp(b.data())) {
+		tmpl = "/tmp/c07api.XXXXXX";
+		b.assign(tmpl.begin(), tmpl.end());
+		b.push_back(0);
+		if (!mkdtemp(b.data()))
+			Die("mkdtemp");
+	}
+	l_ApiTmpDir = b.data();
+	Configuration::DataDir = l_ApiTmpDir;
 }
 
 /* viaConfig: the periods (and the check command "dummy") are config items, so that name references from
@@ -170,6 +235,7 @@ struct Dep {
 	Dependency::Ptr obj;
 	bool live = false;
 	std::string cfgName;
+	bool viaApi = false; /* created with A */
 };
 
 static void Neutral(const Checkable::Ptr& c)
@@ -212,8 +278,17 @@ struct Engine {
 		} else {
 			for (auto& kv : deps) {
 				Dep& d = kv.second;
-				if (d.live && d.obj)
-					CfgRemove(d);
+				if (d.live && d.obj) {
+					if (d.viaApi) {
+						try {
+							ConfigObjectUtility::DeleteObject(d.obj, false, new Array(), new Array());
+						} catch (const std::exception&) {
+						}
+						d.live = false;
+					} else {
+						CfgRemove(d);
+					}
+				}
 			}
 		}
 		deps.clear();
@@ -437,7 +512,14 @@ struct Engine {
 			printf("L | %s\n", kind);
 			if (getenv("C07_DEBUG"))
 				printf("# %s\n", err.c_str());
-			dead = true;
+			if (!loadedOnce) {
+				dead = true;
+				return;
+			}
+			/* a later batch was refused: the case goes on, the dependencies of the batch stay dead */
+			pendD.clear();
+			if (!pendN.empty())
+				return Fail("failed batch contained nodes");
 			return;
 		}
 		loadedOnce = true;
@@ -503,6 +585,239 @@ struct Engine {
 		}
 		snprintf(tmp, sizeof tmp, " reg=%ld", (long)DependencyGroup::GetRegistrySize() - regBase);
 		out += tmp;
+		puts(out.c_str());
+	}
+
+	static bool HasCycleText(const Array::Ptr& arr)
+	{
+		ObjectLock olock(arr);
+		for (const Value& v : arr) {
+			if (v.IsString() && static_cast<String>(v).Find("Dependency cycle") != String::NPos)
+				return true;
+		}
+		return false;
+	}
+
+	void A(int id, int child, int parent, const std::string& group, int filter, int ign, int period, int dc, int dn)
+	{
+		if (!active || dead)
+			return;
+		char head[256];
+		snprintf(head, sizeof head, "A %d %d %d %s %d %d %d %d %d", id, child, parent, group.empty() ? "-" : group.c_str(), filter, ign, period, dc, dn);
+		auto bad = [&](const char *why) {
+			puts(head);
+			Fail(why);
+		};
+		if (!cfg || !loadedOnce)
+			return bad("a-before-load");
+		if (deps.count(id))
+			return bad("dep-id");
+		if (child < 0 || parent < 0 || child >= (int)nodes.size() || parent >= (int)nodes.size() || !nodes[child].obj || !nodes[parent].obj)
+			return bad("dep-node");
+		if (period < -1 || period > 3)
+			return bad("dep-period");
+		if (!buf.empty() || !pendN.empty() || !pendD.empty())
+			return bad("a-with-pending-batch");
+
+		EnsureApiStorage();
+
+		Dep d;
+		d.child = child; d.parent = parent; d.group = group; d.filter = filter; d.ign = ign; d.period = period; d.dc = dc; d.dn = dn;
+		d.viaApi = true;
+
+		const Node& c = nodes[child];
+		const Node& p = nodes[parent];
+		std::string shortName = "d" + std::to_string(id);
+		Dictionary::Ptr attrs = new Dictionary();
+		std::string full; /* as DependencyNameComposer::MakeName */
+		if (c.svc) {
+			attrs->Set("child_host_name", String(HostName(c.host)));
+			attrs->Set("child_service_name", String(ShortName(child)));
+			full = HostName(c.host) + "!" + ShortName(child) + "!" + shortName;
+		} else {
+			attrs->Set("child_host_name", String(HostName(child)));
+			full = HostName(child) + "!" + shortName;
+		}
+		if (p.svc) {
+			attrs->Set("parent_host_name", String(HostName(p.host)));
+			attrs->Set("parent_service_name", String(ShortName(parent)));
+		} else {
+			attrs->Set("parent_host_name", String(HostName(parent)));
+		}
+		if (!group.empty())
+			attrs->Set("redundancy_group", String(group));
+		{
+			static const char *names[] = { "OK", "Warning", "Critical", "Unknown", "Up", "Down" };
+			Array::Ptr states = new Array();
+			for (int b = 0; b < 6; b++)
+				if (filter & (1 << b))
+					states->Add(names[b]);
+			attrs->Set("states", states);
+		}
+		attrs->Set("ignore_soft_states", ign != 0);
+		if (period >= 0)
+			attrs->Set("period", String("vp" + std::to_string(period)));
+		attrs->Set("disable_checks", dc != 0);
+		attrs->Set("disable_notifications", dn != 0);
+		d.cfgName = full;
+
+		/* as CreateObjectHandler::HandleRequest (single-threaded: no ConfigObjectsSharedLock/ObjectNameLock) */
+		Type::Ptr type = Dependency::TypeInstance;
+		Array::Ptr errors = new Array();
+		Array::Ptr diagnosticInformation = new Array();
+		bool ok = false;
+		try {
+			String config = ConfigObjectUtility::CreateObjectConfig(type, full, false, nullptr, attrs);
+			ok = ConfigObjectUtility::CreateObject(type, full, config, errors, diagnosticInformation);
+		} catch (const std::exception& ex) {
+			errors->Add(DiagnosticInformation(ex, false));
+			diagnosticInformation->Add(DiagnosticInformation(ex));
+			ok = false;
+		}
+
+		const char *kind;
+		if (ok) {
+			d.obj = Dependency::GetByName(full);
+			if (d.obj) {
+				d.live = true;
+				kind = "ok";
+			} else {
+				kind = "other";
+			}
+		} else {
+			kind = (HasCycleText(errors) || HasCycleText(diagnosticInformation)) ? "cycle" : "other";
+		}
+		deps[id] = d;
+
+		std::string out = std::string(head) + " | " + kind;
+		char tmp[64];
+		for (const Node& n : nodes) {
+			if (!n.obj) {
+				out += " x";
+				continue;
+			}
+			snprintf(tmp, sizeof tmp, " %zu", n.obj->GetDependencies().size());
+			out += tmp;
+		}
+		snprintf(tmp, sizeof tmp, " reg=%ld", (long)DependencyGroup::GetRegistrySize() - regBase);
+		out += tmp;
+		puts(out.c_str());
+		if (getenv("C07_DEBUG")) {
+			if (!ok) {
+				ObjectLock olock(errors);
+				for (const Value& v : errors)
+					printf("# %s\n", static_cast<String>(v).CStr());
+			}
+			/* what a refused creation leaves behind by name */
+			ConfigObject::Ptr left = ConfigObject::GetObject<Dependency>(full);
+			ConfigItem::Ptr item = ConfigItem::GetByTypeAndName(type, full);
+			printf("# after A: object=%d item=%d\n", left ? 1 : 0, item ? 1 : 0);
+		}
+	}
+
+	void R(int id)
+	{
+		if (!active || dead)
+			return;
+		auto it = deps.find(id);
+		if (it == deps.end() || !it->second.live || !it->second.obj || !it->second.viaApi) {
+			printf("R %d\n", id);
+			return Fail("r-dep");
+		}
+		Dep& d = it->second;
+		Array::Ptr errors = new Array();
+		Array::Ptr diagnosticInformation = new Array();
+		std::string path = d.obj->GetDebugInfo().Path.GetData();
+		bool ok = false;
+		try {
+			ok = ConfigObjectUtility::DeleteObject(d.obj, false, errors, diagnosticInformation);
+		} catch (const std::exception& ex) {
+			errors->Add(DiagnosticInformation(ex, false));
+		}
+		printf("R %d | %s\n", id, ok ? "ok" : "other");
+		if (getenv("C07_DEBUG")) {
+			ObjectLock olock(errors);
+			for (const Value& v : errors)
+				printf("# %s\n", static_cast<String>(v).CStr());
+			printf("# after R: file %s exists=%d\n", path.c_str(), Utility::PathExists(path) ? 1 : 0);
+		}
+		if (ok) {
+			d.live = false;
+			d.obj = nullptr;
+		}
+	}
+
+	void G()
+	{
+		if (!active || dead)
+			return;
+		std::map<const Checkable *, int> nodeId;
+		for (size_t i = 0; i < nodes.size(); i++)
+			if (nodes[i].obj)
+				nodeId[nodes[i].obj.get()] = (int)i;
+		std::map<const Dependency *, int> depId;
+		for (auto& kv : deps)
+			if (kv.second.obj)
+				depId[kv.second.obj.get()] = kv.first;
+		const int unknown = 1000000; /* printed as "?": not an object of this case (debris) */
+		auto num = [&](int v) { return v == unknown ? std::string("?") : std::to_string(v); };
+
+		std::string out = "G | ";
+		for (const Node& n : nodes) {
+			if (!n.obj) {
+				out += "x;";
+				continue;
+			}
+			std::vector<std::string> gs;
+			for (const DependencyGroup::Ptr& g : n.obj->GetDependencyGroups()) {
+				std::vector<std::array<int, 4>> keys;
+				{
+					std::lock_guard<std::mutex> lock((*g).*get(RobGroupMutex()));
+					for (const auto& kv : (*g).*get(RobGroupMembers())) {
+						Checkable *parent; TimePeriod *tp; int filter; bool ign;
+						std::tie(parent, tp, filter, ign) = kv.first;
+						auto ni = nodeId.find(parent);
+						int per = tp ? unknown : -1;
+						for (int i = 0; i < 4; i++)
+							if (tp && l_Pool[i].get() == tp)
+								per = i;
+						keys.push_back({ ni == nodeId.end() ? unknown : ni->second, per, filter, ign ? 1 : 0 });
+					}
+				}
+				std::sort(keys.begin(), keys.end());
+				std::string s = g->GetRedundancyGroupName().IsEmpty() ? std::string("-") : std::string(g->GetRedundancyGroupName().GetData());
+				s += "/";
+				for (size_t i = 0; i < keys.size(); i++) {
+					if (i)
+						s += ",";
+					s += num(keys[i][0]) + "." + num(keys[i][1]) + "." + std::to_string(keys[i][2]) + "." + std::to_string(keys[i][3]);
+				}
+				s += "/";
+				std::vector<int> own;
+				for (const Dependency::Ptr& dep : g->GetDependenciesForChild(n.obj.get())) {
+					auto di = depId.find(dep.get());
+					own.push_back(di == depId.end() ? unknown : di->second);
+				}
+				std::sort(own.begin(), own.end());
+				for (size_t i = 0; i < own.size(); i++) {
+					if (i)
+						s += ",";
+					s += num(own[i]);
+				}
+				s += "/" + std::to_string(g->GetDependenciesCount());
+				gs.push_back(s);
+			}
+			std::sort(gs.begin(), gs.end());
+			if (gs.empty())
+				out += "0";
+			for (size_t i = 0; i < gs.size(); i++) {
+				if (i)
+					out += "+";
+				out += gs[i];
+			}
+			out += ";";
+		}
+		out += "reg=" + std::to_string((long)DependencyGroup::GetRegistrySize() - regBase);
 		puts(out.c_str());
 	}
 };
@@ -1051,6 +1366,301 @@ static void GenCfgHand()
 }
 
 /* ------------------------------------------------------------------------------------------------
+ * gencfg, part "rt": runtime creation/deletion (A/R), group composition (G), refused later batches */
+
+struct RtGen {
+	Rng& rng;
+	int nn = 0;
+	std::vector<int> isSvc, hostOf, rank;
+	struct GDep { int id, c, p; std::string grp; int filter, ign, period; bool live, api; };
+	std::vector<GDep> deps;
+	int nextDep = 0;
+
+	explicit RtGen(Rng& r) : rng(r) { }
+
+	/* does "from" reach "to" over live dependencies (child -> parent), the extra edges and service -> host? */
+	bool Reaches(int from, int to, const std::vector<std::pair<int, int>>& extra) const
+	{
+		std::vector<int> seen(nn, 0), stack{ from };
+		seen[from] = 1;
+		while (!stack.empty()) {
+			int x = stack.back();
+			stack.pop_back();
+			if (x == to)
+				return true;
+			auto visit = [&](int y) { if (!seen[y]) { seen[y] = 1; stack.push_back(y); } };
+			if (isSvc[x])
+				visit(hostOf[x]);
+			for (const GDep& d : deps)
+				if (d.live && d.c == x)
+					visit(d.p);
+			for (const auto& e : extra)
+				if (e.first == x)
+					visit(e.second);
+		}
+		return false;
+	}
+
+	bool WouldCycle(int c, int p, const std::vector<std::pair<int, int>>& extra = {}) const { return Reaches(p, c, extra); }
+
+	int DefFilter(int parent) { return isSvc[parent] ? (rng.below(100) < 80 ? 3 : 15) : (rng.below(100) < 80 ? 16 : 48); }
+
+	GDep Make(int c, int p)
+	{
+		GDep d;
+		d.id = nextDep++;
+		d.c = c; d.p = p;
+		d.grp = rng.below(2) ? "g1" : "";
+		d.filter = DefFilter(p);
+		d.ign = rng.below(100) < 25 ? 1 : 0;
+		d.period = rng.below(100) < 20 ? 0 : -1;
+		d.live = false; d.api = false;
+		return d;
+	}
+
+	std::string Line(char op, const GDep& d)
+	{
+		char b[200];
+		snprintf(b, sizeof b, "%c %d %d %d %s %d %d %d %d %d\n", op, d.id, d.c, d.p, d.grp.empty() ? "-" : d.grp.c_str(), d.filter, d.ign, d.period,
+			rng.below(100) < 70 ? 1 : 0, rng.below(100) < 70 ? 1 : 0);
+		return b;
+	}
+
+	/* an acyclic pair, parents preferably among the two lowest ranked nodes */
+	bool AcyclicPair(int& c, int& p, const std::vector<std::pair<int, int>>& extra = {})
+	{
+		for (int attempt = 0; attempt < 30; attempt++) {
+			c = (int)rng.below(nn);
+			if (rng.below(100) < 70) {
+				int want = (int)rng.below(2);
+				p = -1;
+				for (int i = 0; i < nn; i++) if (rank[i] == want) p = i;
+			} else {
+				p = (int)rng.below(nn);
+			}
+			if (p < 0 || p == c || WouldCycle(c, p, extra))
+				continue;
+			return true;
+		}
+		return false;
+	}
+
+	/* a pair whose addition closes a cycle */
+	void CyclicPair(int& c, int& p, const std::vector<std::pair<int, int>>& extra = {})
+	{
+		std::vector<std::pair<int, int>> cand;
+		for (int a = 0; a < nn; a++)
+			for (int b = 0; b < nn; b++)
+				if (a != b && WouldCycle(a, b, extra))
+					cand.push_back({ a, b });
+		if (cand.empty() || rng.below(100) < 20) {
+			c = p = (int)rng.below(nn);
+			return;
+		}
+		auto pr = cand[rng.below(cand.size())];
+		c = pr.first; p = pr.second;
+	}
+
+	void GQ() { printf("G\nQ -\n"); }
+
+	void Case(int idx)
+	{
+		deps.clear(); nextDep = 0;
+		isSvc.clear(); hostOf.clear();
+		nn = rng.range(3, 6);
+		std::vector<int> hosts;
+		for (int i = 0; i < nn; i++) {
+			if (i > 0 && rng.below(100) < 40) {
+				isSvc.push_back(1);
+				hostOf.push_back(hosts[rng.below(hosts.size())]);
+			} else {
+				isSvc.push_back(0);
+				hostOf.push_back(-1);
+				hosts.push_back(i);
+			}
+		}
+		rank.assign(nn, 0);
+		for (int i = 0; i < nn; i++) rank[i] = i;
+		for (int i = nn - 1; i > 0; i--) std::swap(rank[i], rank[rng.below(i + 1)]);
+		for (int i = 0; i < nn; i++)
+			if (isSvc[i] && rank[i] < rank[hostOf[i]])
+				std::swap(rank[i], rank[hostOf[i]]);
+
+		printf("C cfg rt-%d\n", idx);
+		for (int i = 0; i < nn; i++)
+			printf("N %d %c %d\n", i, isSvc[i] ? 's' : 'h', isSvc[i] ? hostOf[i] : -1);
+
+		/* first batch: acyclic */
+		int nInit = rng.range(1, 5);
+		int emitted = 0;
+		if (nn >= 4 && rng.below(100) < 30) {
+			/* two children with the identical redundancy group over the same two parents */
+			int p0 = -1, p1 = -1;
+			std::vector<int> kids;
+			for (int i = 0; i < nn; i++) {
+				if (rank[i] == 0) p0 = i;
+				else if (rank[i] == 1) p1 = i;
+				else kids.push_back(i);
+			}
+			int k0 = kids[rng.below(kids.size())], k1;
+			do { k1 = kids[rng.below(kids.size())]; } while (k1 == k0);
+			int f0 = isSvc[p0] ? 3 : 16, f1 = isSvc[p1] ? 3 : 16;
+			for (int k : { k0, k1 })
+				for (int q = 0; q < 2; q++) {
+					int p = q ? p1 : p0;
+					if (WouldCycle(k, p))
+						continue;
+					GDep d = Make(k, p);
+					d.grp = "g1"; d.filter = q ? f1 : f0; d.ign = 0; d.period = -1;
+					d.live = true;
+					fputs(Line('D', d).c_str(), stdout);
+					deps.push_back(d);
+					emitted++;
+				}
+		}
+		while (emitted < nInit || emitted == 0) {
+			int c, p;
+			if (!AcyclicPair(c, p))
+				break;
+			GDep d = Make(c, p);
+			d.live = true;
+			fputs(Line('D', d).c_str(), stdout);
+			deps.push_back(d);
+			emitted++;
+		}
+		printf("L\n");
+		GQ();
+
+		int steps = rng.range(4, 10);
+		for (int st = 0; st < steps; st++) {
+			int k = (int)rng.below(100);
+			std::vector<size_t> liveApi, liveCfg, liveAll;
+			for (size_t i = 0; i < deps.size(); i++) {
+				if (!deps[i].live) continue;
+				liveAll.push_back(i);
+				(deps[i].api ? liveApi : liveCfg).push_back(i);
+			}
+			if (k >= 45 && k < 60 && liveApi.empty()) k = 0;
+			if (k >= 60 && k < 72 && liveCfg.empty()) k = 90;
+
+			if (k < 45) {
+				int c, p;
+				bool cyc = rng.below(100) < 40;
+				GDep d;
+				if (cyc) {
+					CyclicPair(c, p);
+					d = Make(c, p);
+				} else {
+					int m = (int)rng.below(100);
+					bool done = false;
+					if (m < 30 && !liveAll.empty()) {
+						/* duplicate an existing child/parent pair, half of the time with the same composite key and group */
+						const GDep& o = deps[liveAll[rng.below(liveAll.size())]];
+						d = Make(o.c, o.p);
+						if (rng.below(2)) { d.grp = o.grp; d.filter = o.filter; d.ign = o.ign; d.period = o.period; }
+						done = true;
+					} else if (m < 60) {
+						/* join an existing redundancy group of the same child with another parent */
+						std::vector<size_t> grouped;
+						for (size_t i : liveAll) if (!deps[i].grp.empty()) grouped.push_back(i);
+						if (!grouped.empty()) {
+							const GDep o = deps[grouped[rng.below(grouped.size())]];
+							for (int attempt = 0; attempt < 10 && !done; attempt++) {
+								int q = (int)rng.below(nn);
+								if (q == o.c || WouldCycle(o.c, q))
+									continue;
+								d = Make(o.c, q);
+								d.grp = o.grp;
+								done = true;
+							}
+						}
+					}
+					if (!done) {
+						if (!AcyclicPair(c, p)) { CyclicPair(c, p); cyc = true; }
+						d = Make(c, p);
+					}
+				}
+				d.api = true;
+				d.live = !cyc;
+				fputs(Line('A', d).c_str(), stdout);
+				deps.push_back(d);
+				GQ();
+			} else if (k < 60) {
+				size_t i = liveApi[rng.below(liveApi.size())];
+				printf("R %d\n", deps[i].id);
+				deps[i].live = false;
+				GQ();
+			} else if (k < 72) {
+				size_t i = liveCfg[rng.below(liveCfg.size())];
+				printf("X %d\n", deps[i].id);
+				deps[i].live = false;
+				GQ();
+			} else if (k < 87) {
+				/* a later batch, sometimes refused as a whole */
+				bool cyc = rng.below(100) < 35;
+				std::vector<GDep> batch;
+				std::vector<std::pair<int, int>> extra;
+				int c, p;
+				if (rng.below(2) && AcyclicPair(c, p)) {
+					batch.push_back(Make(c, p));
+					extra.push_back({ c, p });
+				}
+				if (cyc) {
+					CyclicPair(c, p, extra);
+					batch.push_back(Make(c, p));
+				} else if (batch.empty() || rng.below(2)) {
+					if (AcyclicPair(c, p, extra))
+						batch.push_back(Make(c, p));
+				}
+				if (batch.empty()) {
+					CyclicPair(c, p);
+					batch.push_back(Make(c, p));
+					cyc = true;
+				}
+				if (batch.size() == 2 && rng.below(2))
+					std::swap(batch[0], batch[1]);
+				for (GDep& d : batch) {
+					d.live = !cyc;
+					fputs(Line('D', d).c_str(), stdout);
+					deps.push_back(d);
+				}
+				printf("L\n");
+				GQ();
+			} else {
+				if (rng.below(100) < 70) {
+					int n = (int)rng.below(nn);
+					if (rng.below(2)) printf("S %d 1 %d 1\n", n, 2 + (int)rng.below(2));
+					else printf("S %d %d %d %d\n", n, (int)rng.below(2), (int)rng.below(4), (int)rng.below(2));
+				} else {
+					printf("T 0 %d\n", (int)rng.below(2));
+				}
+				printf("Q -\n");
+			}
+		}
+	}
+};
+
+static void GenRtHand()
+{
+	/* (i) A closing a 2-cycle is refused and leaves everything as it was; then a harmless A */
+	printf("C cfg rt-hand-i\nN 0 h -1\nN 1 h -1\nN 2 h -1\nD 0 1 0 - 16 0 -1 1 1\nL\nG\nQ -\n"
+		"A 1 0 1 - 16 0 -1 1 1\nG\nQ -\nA 2 2 0 - 16 0 -1 1 1\nG\nQ -\nR 2\nG\nQ -\n");
+	/* (ii) two children share redundancy group g1 over the same two parents */
+	printf("C cfg rt-hand-ii\nN 0 h -1\nN 1 h -1\nN 2 h -1\nN 3 h -1\n"
+		"D 0 2 0 g1 16 0 -1 1 1\nD 1 2 1 g1 16 0 -1 1 1\nD 2 3 0 g1 16 0 -1 1 1\nD 3 3 1 g1 16 0 -1 1 1\nL\nG\nQ -\n"
+		"X 0\nG\nQ -\nA 4 2 0 g1 16 0 -1 1 1\nG\nQ -\nS 0 1 2 1\nQ -\nR 4\nG\nQ -\nS 1 1 2 1\nQ -\n");
+	/* (iii) duplicate plain dependencies with different disable flags, one removed */
+	printf("C cfg rt-hand-iii\nN 0 h -1\nN 1 h -1\nD 0 1 0 - 16 0 -1 1 1\nD 1 1 0 - 16 0 -1 0 1\nL\nG\nQ -\n"
+		"S 0 1 2 1\nQ -\nX 0\nG\nQ -\nA 2 1 0 - 16 0 -1 1 0\nG\nQ -\nA 3 1 0 - 16 1 -1 1 1\nG\nQ -\nR 2\nG\nQ -\n");
+	/* (iv) A making a host depend on its own service */
+	printf("C cfg rt-hand-iv\nN 0 h -1\nN 1 s 0\nN 2 h -1\nD 0 2 0 - 16 0 -1 1 1\nL\nG\nQ -\n"
+		"A 1 0 1 - 3 0 -1 1 1\nG\nQ -\nA 2 1 1 - 3 0 -1 1 1\nG\nQ -\nA 3 0 2 - 16 0 -1 1 1\nG\nQ -\nA 4 1 2 g1 16 0 0 1 1\nG\nQ -\n");
+	/* (v) a refused later batch does not end the case */
+	printf("C cfg rt-hand-v\nN 0 h -1\nN 1 h -1\nN 2 h -1\nD 0 1 0 - 16 0 -1 1 1\nL\nG\nQ -\n"
+		"D 1 2 1 - 16 0 -1 1 1\nD 2 0 2 - 16 0 -1 1 1\nL\nG\nQ -\nD 3 2 1 - 16 0 -1 1 1\nL\nG\nQ -\nA 4 0 2 - 16 0 -1 1 1\nG\nQ -\n");
+}
+
+/* ------------------------------------------------------------------------------------------------
  * ops */
 
 static int RunOps(const char *path)
@@ -1122,6 +1732,21 @@ static int RunOps(const char *path)
 			E.T(pe, in);
 			break;
 		}
+		case 'A': {
+			int id, c, pa, filter, ign, period, dc, dn; char grp[128];
+			if (sscanf(p, "A %d %d %d %127s %d %d %d %d %d", &id, &c, &pa, grp, &filter, &ign, &period, &dc, &dn) != 9) { printf("FATAL bad A line\n"); return 2; }
+			E.A(id, c, pa, strcmp(grp, "-") ? grp : "", filter, ign, period, dc, dn);
+			break;
+		}
+		case 'R': {
+			int id;
+			if (sscanf(p, "R %d", &id) != 1) { printf("FATAL bad R line\n"); return 2; }
+			E.R(id);
+			break;
+		}
+		case 'G':
+			E.G();
+			break;
 		case 'L':
 			E.L();
 			break;
@@ -1156,6 +1781,13 @@ int main(int argc, char **argv)
 		int n = thorough ? 5000 : 600;
 		for (int i = 0; i < n; i++)
 			g.Case(i);
+		/* appended later: everything above stays byte-identical for a given seed */
+		GenRtHand();
+		Rng rng2(seed ^ 0x7c07a11ceULL);
+		RtGen rt(rng2);
+		int nrt = thorough ? 2500 : 300;
+		for (int i = 0; i < nrt; i++)
+			rt.Case(i);
 		fflush(stdout);
 		_exit(0);
 	}
@@ -1192,5 +1824,6 @@ int main(int argc, char **argv)
 		rc = 2;
 	}
 	fflush(stdout);
+	RemoveApiStorage();
 	_exit(rc);
 }
